@@ -114,6 +114,8 @@ pub fn generate(seed: u64) -> Sc {
         sequences.push(seq.iter().map(|d| d.to_string()).collect());
     }
     let mut app_runs = vec![];
+    // (its own stream: the rest of the scenario is what it was before rows had affiliates)
+    let mut raff = Rng::new(crate::prng::mix(seed, 0xAFF1, 12));
     for _ in 0..r.range(1, 3) {
         let mut rows = vec![];
         for _ in 0..r.range(1, 5) {
@@ -158,6 +160,7 @@ pub fn generate(seed: u64) -> Sc {
                 row.sell = false;
             }
             row.other_security = r.chance(1, 5);
+            row.affiliate = raff.weighted(&[5, 1, 2, 1]) as u8;
             // explicit zeros are amounts like any other: they do not excuse a missing rate
             row.zero_price = !row.roc && r.chance(1, 12);
             if !row.roc && r.chance(1, 2) {
